@@ -1,5 +1,6 @@
 import XvcPipeData.Schema
 import XvcPipeData.Invalidate
+import XvcPipeData.Reader
 /-!
   Line-protocol driver `pipedata <mode>`: one request per line on stdin, one canonical answer per
   line on stdout.
@@ -8,6 +9,10 @@ import XvcPipeData.Invalidate
                              real `xvc pipeline …` commands.
   * `pipedata invalidate`  — the run-decision model (`Invalidate.lean`), compared by `lib/c12.py` with the
                              journal of real `xvc pipeline run`s.
+  * `pipedata reader`      — the text layer of `xvc pipeline import` (`Reader.lean`): request
+                             `<file|stdin|stdin-verbatim> <stream>`, the stream being decimal code points
+                             (`X` = a byte outside every well-formed UTF-8 sequence) joined by `.`, `-` if
+                             empty; answer: the string handed to the parser in the same encoding, or `err`.
 
   Strings (names, commands, paths) arrive as opaque tokens without blanks; dependencies and outputs
   as natural numbers (their rank in the order `derive(Ord)` gives them, computed by the harness).
@@ -134,10 +139,41 @@ partial def invLoop (h out : IO.FS.Stream) (st : Inval.DState) : IO Unit := do
     out.putStrLn ans
     invLoop h out st'
 
+/-! ## reader mode -/
+
+def parseSym (t : String) : Option Reader.Sym :=
+  if t == "X" then some .bad else t.toNat?.map fun n => .ch (Char.ofNat n)
+
+def parseStream (s : String) : Option (List Reader.Sym) :=
+  if s == "-" then some [] else (s.splitOn ".").mapM parseSym
+
+def showChars (l : List Char) : String :=
+  if l.isEmpty then "-" else ".".intercalate (l.map fun c => toString c.toNat)
+
+def readerStep (line : String) : String :=
+  match line.trimAscii.toString.splitOn " " with
+  | [chan, stream] =>
+    match parseStream stream with
+    | none => "bad-op"
+    | some inp =>
+      match chan with
+      | "file" => match Reader.readFile inp with | some t => showChars t | none => "err"
+      | "stdin" => showChars (Reader.readStdin inp)
+      | "stdin-verbatim" => match Reader.readStdinVerbatim inp with | some t => showChars t | none => "err"
+      | _ => "bad-op"
+  | _ => "bad-op"
+
+partial def readerLoop (h out : IO.FS.Stream) : IO Unit := do
+  let line ← h.getLine
+  if line.isEmpty then return ()
+  out.putStrLn (readerStep line)
+  readerLoop h out
+
 def main (args : List String) : IO Unit := do
   let stdin ← IO.getStdin
   let stdout ← IO.getStdout
   match args with
   | ["schema"] => schemaLoop stdin stdout {}
   | ["invalidate"] => invLoop stdin stdout {}
-  | _ => IO.eprintln "usage: pipedata schema|invalidate"
+  | ["reader"] => readerLoop stdin stdout
+  | _ => IO.eprintln "usage: pipedata schema|invalidate|reader"
